@@ -406,6 +406,9 @@ func init() {
 		if r.Chance(1, 4) {
 			return []lcw.Input{remountAfterLoss(r)}
 		}
+		if r.Chance(1, 10) {
+			return []lcw.Input{spelledConfig(r)}
+		}
 		ws, in := world(r, r.Chance(5, 6))
 		if r.Chance(1, 6) { // an import whose mountpoint tries to leave the build root
 			l := &ws.Layers[r.Intn(len(ws.Layers))]
@@ -576,6 +579,9 @@ func init() {
 	})
 	// ---- C08
 	register("c08", func(r *rng.R, tier string) []lcw.Input {
+		if r.Chance(1, 8) {
+			return []lcw.Input{spelledConfig(r)}
+		}
 		ws := lcw.GenWorld(r, 5, r.Chance(1, 3))
 		if r.Chance(1, 8) {
 			ws.HostLayout = "bindbase"
